@@ -904,7 +904,7 @@ func moreProxyAclErrors(p *Program, r *Report) {
 	for _, e := range nonNil {
 		reach := reachableFromEdge(f, e, named)
 		for _, s := range errReturnSites(f) {
-			if isNilConst(s.val) && reach[s.ret.Block()] {
+			if isNilConst(s.val) && s.reachedIn(reach) {
 				bad = true
 			}
 		}
@@ -944,7 +944,7 @@ func moreWalkMarker(p *Program, r *Report) {
 	for _, w := range []struct{ fn, marker string }{{"backend.Walk", "marker"}, {"backend.WalkVersions", "keyMarker"}} {
 		outer := p.Func(w.fn)
 		fns := []*ssa.Function{outer}
-		fns = append(fns, outer.AnonFuncs...)
+		fns = append(fns, walkCallbacks(outer)...)
 		nStores := 0
 		for _, f := range fns {
 			var eq []edge
@@ -971,6 +971,12 @@ func moreWalkMarker(p *Program, r *Report) {
 						continue
 					}
 					if bv, isB := constBool(st.Val); isB && !bv {
+						continue
+					}
+					// `pastMarker := marker == ""` stores the outcome of an equality test on the marker itself
+					if bo, isBO := st.Val.(*ssa.BinOp); isBO && bo.Op == token.EQL && atomsOf(bo)["param:"+w.marker] {
+						nStores++
+						r.Ok("R-C07-3", fnName(f)+"/pastMarker=(marker==...)#"+itoa(nStores), p.Pos(st.Pos()), "assigned the outcome of an equality test on the marker")
 						continue
 					}
 					nStores++
@@ -1078,7 +1084,7 @@ func moreStashOnce(p *Program, r *Report) {
 					_ = si
 					reach := reachableAvoiding(f, su, nil, avoid)
 					for _, s := range errReturnSites(f) {
-						if !isNilConst(s.val) || !reach[s.ret.Block()] {
+						if !isNilConst(s.val) || !s.reachedIn(reach) {
 							continue
 						}
 						if s.pred != nil && !reach[s.pred] && s.pred != c.Block() {
@@ -1101,7 +1107,7 @@ func moreStashOnce(p *Program, r *Report) {
 // moreRangeArith runs the zone interpreter (zone.go) over a range parser and checks, at every return
 // with a nil error, that the (start, length) pair lies inside [0,size] and that no arithmetic wraps.
 func moreRangeArith(p *Program, r *Report, rule, fn string, validIdx int) {
-	r.Rule(rule, "range arithmetic stays inside the object ("+fn+", zone abstract interpretation over all paths): at every successful return 0 <= start, start+length <= size, length >= 0 (>= 1 for a satisfiable range), and no int64 addition/subtraction on the way can wrap. Assumptions: size >= 0; a strconv.ParseInt result whose text is an element of strings.Split(x, \"-\") is >= 0", 6)
+	r.Rule(rule, "range arithmetic stays inside the object ("+fn+", zone abstract interpretation over all paths): at every successful return 0 <= start, start+length <= size, length >= 0 (>= 1 for a satisfiable range), and no int64 addition/subtraction on the way can wrap. Assumptions: size >= 0; a strconv.ParseInt result whose text provably contains no '-' (an element of strings.Split(x, \"-\"), the part before the separator of strings.Cut(x, \"-\"), or the part after it behind a strings.Contains(.., \"-\") refusal) is >= 0", 6)
 	f := p.Func(fn)
 	var size *ssa.Parameter
 	for _, prm := range f.Params {
@@ -1127,20 +1133,8 @@ func moreRangeArith(p *Program, r *Report, rule, fn string, validIdx int) {
 		if !ok || calleeName(c) != "strconv.ParseInt" {
 			return nil, nil
 		}
-		// text argument: element of strings.Split(_, "-")
-		ld, ok := c.Call.Args[0].(*ssa.UnOp)
-		if !ok {
-			return nil, nil
-		}
-		ia, ok := ld.X.(*ssa.IndexAddr)
-		if !ok {
-			return nil, nil
-		}
-		sp, ok := ia.X.(*ssa.Call)
-		if !ok || calleeName(sp) != "strings.Split" {
-			return nil, nil
-		}
-		if sep, ok := constString(sp.Call.Args[1]); !ok || sep != "-" {
+		// the text cannot contain a minus sign
+		if !noDashText(f, c, c.Call.Args[0], map[ssa.Value]bool{}) {
 			return nil, nil
 		}
 		nAx++
@@ -1563,30 +1557,25 @@ func moreWalkAppends(p *Program, r *Report) {
 			guarded := false
 			for _, ce := range condEdgesOf(outer) {
 				cc, ok := ce.cond.(*ssa.Call)
-				if !ok || calleeName(cc) != "backend.contains" {
+				if !ok || !isSkipdirsTest(cc) {
 					continue
 				}
-				a := cc.Call.Args
 				okArgs := false
-				for _, rt := range Origins(a[0], nil) {
-					if rt.Kind == "param" && rt.Desc == "prefix" {
-						okArgs = true
+				for _, a := range cc.Call.Args {
+					for _, rt := range Origins(a, nil) {
+						if rt.Kind == "param" && rt.Desc == "prefix" {
+							okArgs = true
+						}
 					}
 				}
-				sk := false
-				for _, rt := range Origins(a[1], nil) {
-					if rt.Kind == "param" && rt.Desc == "skipdirs" {
-						sk = true
-					}
-				}
-				if okArgs && sk && !reachableFromEdge(outer, ce.holds, nil)[wc.Block()] {
+				if okArgs && !reachableFromEdge(outer, ce.holds, nil)[wc.Block()] {
 					guarded = true
 				}
 			}
 			r.Check(!fromPrefix || guarded, "R-C07-5", w.fn+"/root", p.Pos(wc.Pos()), "root segments tested against skipdirs before the walk", "the walk root is cut from the prefix but never compared with skipdirs: ListObjects with prefix .sgwtmp/multipart/ lists the parts of uploads in progress (the callback prunes only entries it visits)")
 		}
 		// R-C07-6
-		for _, f := range outer.AnonFuncs {
+		for _, f := range walkCallbacks(outer) {
 			var pfxCut, mrkCut []edge
 			for _, ce := range condEdgesOf(f) {
 				switch c := ce.cond.(type) {
@@ -1641,6 +1630,76 @@ func moreWalkAppends(p *Program, r *Report) {
 			}
 		}
 	}
+}
+
+// noDashText: the string v, used as the text of the ParseInt call use, cannot contain '-'.
+func noDashText(f *ssa.Function, use ssa.Instruction, v ssa.Value, seen map[ssa.Value]bool) bool {
+	if seen[v] {
+		return true
+	}
+	seen[v] = true
+	if s, ok := constString(v); ok {
+		return !strings.Contains(s, "-")
+	}
+	switch x := v.(type) {
+	case *ssa.Phi:
+		for _, e := range x.Edges {
+			if !noDashText(f, use, e, seen) {
+				return false
+			}
+		}
+		return len(x.Edges) > 0
+	case *ssa.UnOp:
+		if x.Op != token.MUL {
+			return false
+		}
+		if ia, ok := x.X.(*ssa.IndexAddr); ok {
+			if sp, ok := ia.X.(*ssa.Call); ok && calleeName(sp) == "strings.Split" {
+				if sep, ok := constString(sp.Call.Args[1]); ok && sep == "-" {
+					return true
+				}
+			}
+		}
+		return false
+	case *ssa.Extract:
+		cut, ok := x.Tuple.(*ssa.Call)
+		if !ok || calleeName(cut) != "strings.Cut" {
+			return false
+		}
+		if sep, ok := constString(cut.Call.Args[1]); !ok || sep != "-" {
+			return false
+		}
+		if x.Index == 0 {
+			return true // the part before the first separator
+		}
+		if x.Index != 1 {
+			return false
+		}
+		// the part after it: only if the use is unreachable once the "contains no '-'" edges are cut
+		var clean []edge
+		for _, ce := range condEdgesOf(f) {
+			cc, ok := ce.cond.(*ssa.Call)
+			if !ok || calleeName(cc) != "strings.Contains" {
+				continue
+			}
+			if sep, ok := constString(cc.Call.Args[1]); !ok || sep != "-" {
+				continue
+			}
+			same := cc.Call.Args[0] == ssa.Value(x)
+			if ph, ok := cc.Call.Args[0].(*ssa.Phi); ok {
+				for _, e := range ph.Edges {
+					if e == ssa.Value(x) {
+						same = true
+					}
+				}
+			}
+			if same {
+				clean = append(clean, ce.fails)
+			}
+		}
+		return len(clean) > 0 && !reachable(f, nil, clean)[use.Block()]
+	}
+	return false
 }
 
 var _ = token.ADD
